@@ -1,2 +1,13 @@
 import ChessVerif.Props.C03
+import ChessVerif.Props.BitLoop
+#print axioms ChessVerif.Props.C03.token_masks_disjoint
+#print axioms ChessVerif.Props.C03.token_fields_roundtrip
+#print axioms ChessVerif.Props.C03.isPseudoLegal_makeOK
+#print axioms ChessVerif.Props.C03.undo_make
+#print axioms ChessVerif.Props.C03.undo_make_valid
 #print axioms ChessVerif.Props.C03.undoNull_makeNull
+#print axioms ChessVerif.Props.C03.wf_make
+#print axioms ChessVerif.Props.C03.wf_null
+#print axioms ChessVerif.Props.C03.undo_nested
+#print axioms ChessVerif.Props.BitLoop.goLoop_eq_bits
+#print axioms ChessVerif.Props.BitLoop.isolateLowest_eq
